@@ -2,7 +2,7 @@
 outcome in seeded/<id>/meta.json.  usage: run_matrix.py [-j N] [id-prefix ...]"""
 import os, sys, json, glob, re, subprocess, concurrent.futures
 VERIF = os.path.dirname(os.path.dirname(os.path.abspath(__file__)))
-EXTRA = {'C01': ['C02'], 'C02': ['C01'], 'C03': ['C04'], 'C04': ['C03'], 'C13': ['C04', 'C14'], 'C14': ['C13'], 'C15': ['C01'], 'C18': ['C02'], 'C10': ['C01']}      # (the full matrix of waves 1-3 also ran C15/C03/C07/C14 where relevant)
+EXTRA = {'C01': ['C02', 'C03'], 'C02': ['C01'], 'C03': ['C04'], 'C04': ['C03'], 'C13': ['C04', 'C14'], 'C14': ['C13'], 'C15': ['C01'], 'C18': ['C02'], 'C10': ['C01']}      # (the full matrix of waves 1-3 also ran C15/C03/C07/C14 where relevant)
 def one(name):
     prop = name.split('_')[0]
     pids = [prop] + [p for p in EXTRA.get(prop, []) if p != prop]
